@@ -1719,22 +1719,28 @@ class sptensor:
             shapeArray = np.array(self.shape)
             if not np.array_equal(factor.shape, shapeArray[dims]):
                 assert False, "Size mismatch in scale"
+            if self.nnz == 0:
+                return self.copy()
             return ttb.sptensor(
                 self.subs,
-                self.vals * factor[self.subs[:, dims]][:, None],
+                self.vals * np.atleast_1d(factor[self.subs[:, dims]])[:, None],
                 self.shape,
             )
         if isinstance(factor, ttb.sptensor):
             shapeArray = np.array(self.shape)
             if not np.array_equal(factor.shape, shapeArray[dims]):
                 assert False, "Size mismatch in scale"
+            if self.nnz == 0:
+                return self.copy()
             return ttb.sptensor(
-                self.subs, self.vals * factor[self.subs[:, dims]], self.shape
+                self.subs, self.vals * factor.extract(self.subs[:, dims]), self.shape
             )
         if isinstance(factor, np.ndarray):
             shapeArray = np.array(self.shape)
             if factor.shape[0] != shapeArray[dims]:
                 assert False, "Size mismatch in scale"
+            if self.nnz == 0:
+                return self.copy()
             return ttb.sptensor(
                 self.subs,
                 self.vals * factor[self.subs[:, dims].transpose()[0]][:, None],
